@@ -14,7 +14,7 @@ RULE = ("Generated programs whose string literals (group labels, predicate opera
         "PythonCodeGen(...).generate() in both layouts and of generate_code(...) in both layouts, with every constant masked, "
         "equals that of the twin program in which every string is replaced by \"x\" (unparsable output counts as a "
         "difference); (ii) a sentinel callable planted in builtins has been called 0 times after compiling and after "
-        "evaluating on generated inputs. Non-trivial = some literal contains a quote, backslash, parenthesis or '+'; distinct "
+        "evaluating on generated inputs. (iii) a literal that spells program text (the tokens of two groups, the name of a field, the printed form of an earlier term) stays one constant, also when recompile()d into a live evaluator holding the program it spells. Non-trivial = some literal contains a quote, backslash, parenthesis or '+'; distinct "
         "by program text.")
 ASSUMPTIONS = [
     "both sides of the AST comparison come from the current generator, so refactoring the emitted code cannot alarm",
@@ -33,6 +33,7 @@ PAYLOADS = [
     "\x0b", "\r__pyab_sentinel__()", "s\r\t__pyab_sentinel__()",
     "US\uff02 or f != \uff02", "x\uff07 weighted 0, \uff07y", "\uff02", "\uff07", "a\uff08b\uff09", "\uff5bx\uff5d", "\uff0b", "\uff03",
     "\uff02+str(__pyab_sentinel__())+\uff02", "\ufe63", "\u2033", "\u02ba",
+    "name='f'", "name='uid'", "f", "uid", "1", "(1, 2)", "Identifier(name='f')", "0", "z",
     "it's", 'say "hi"', "plain", "\\n", "\\t'", "${x}", "`x`", "'+'", "\\'", 'a" + __pyab_sentinel__() + "b',
 ]
 
@@ -161,7 +162,8 @@ def judge(case):
 
 
 def judge_case(record):
-    return judge(record["case"])["viol"]
+    c = record["case"]
+    return (judge_spelling(c) if "pick" in c else judge(c))["viol"]
 
 
 def fixed_cases():
@@ -174,9 +176,23 @@ def fixed_cases():
                "inputs": [M.enc_inputs({"uid": "u1", "f": p}), M.enc_inputs({"uid": "u2", "f": "z"}), M.enc_inputs({"uid": "u3", "f": 0})]}
 
 
+def judge_spelling(case):
+    """a string literal that spells program text (the tokens of two groups, the name of a field) is still one constant - also
+    when it reaches a live evaluator that holds the program it spells"""
+    from . import c11
+
+    case = dict(case, only=["spelling the tokens", "identifier operand"])
+    return c11.judge_neighbours(case)
+
+
 def run(ctx, rec):
     if ctx.shard == 0:
         runner.direct_run(ctx, rec, "payload-catalogue", fixed_cases(), judge)
         if rec.violations:
             return
     runner.hyp_run(ctx, rec, "generated", cases(), judge, ctx.n(150, 1200))
+    if rec.violations:
+        return
+    from . import c11
+
+    runner.hyp_run(ctx, rec, "literal-spelling-program-text-through-recompile", c11.neighbour_cases(), judge_spelling, ctx.n(80, 500))
